@@ -27,7 +27,7 @@ ASSUMPTIONS = ['comparison is with the frame as it was when saved (a derived fra
                'blimpy is the independent reader named by the property; an own SIGPROC/HDF5 parser backs it for the header fields and data',
                'HDF5 round trips are only driven for frames of >= 3 integrations and >= 3 channels (blimpy\'s reader rejects smaller files)',
                'blimpy container conventions (f_start/f_stop as band edges) are not judged: get_waterfall() is judged by its header and data only']
-STARTS = ['synthetic', 'from_data', 'shape', 'loaded_fil', 'loaded_h5', 'loaded_fsel', 'loaded_tsel']
+STARTS = ['synthetic', 'from_data', 'shape', 'loaded_fil', 'loaded_h5', 'loaded_fsel', 'loaded_tsel', 'loaded_foreign']
 OPS = ['add_noise', 'add_signal', 'get_waterfall', 'copy', 'save_fil', 'save_h5', 'reload_fil', 'reload_h5', 'get_slice', 'dedrift', 'pickle',
        'other_frame', 'retime', 'retune', 'rewrap']
 
@@ -205,6 +205,18 @@ def _run(stg, c, d, R):
     elif c['start'] == 'shape':
         fr = stg.Frame(shape=(T, F), seed=c['sub'], t_start=1.6e9 + c['mjd'], **kw)
         fr.data = marker(rng, T, F)
+    elif c['start'] == 'loaded_foreign':
+        # an observation NOT written by setigen (own SIGPROC writer): header values setigen's constructor never produced itself,
+        # e.g. a blank source name
+        from astropy.time import Time
+        p0 = newpath('fil')
+        fs_file = base.fs if c['asc'] else base.fs[::-1]
+        data_file = base.data if c['asc'] else base.data[:, ::-1]
+        filfile.write_fil(p0, dict(fch1=float(fs_file[0]) * 1e-6, foff=(c['df'] if c['asc'] else -c['df']) * 1e-6, tsamp=c['dt'],
+                                   tstart=float(Time(base.t_start, format='unix').mjd),
+                                   source_name=common.pick(rng, ['', '', 'B0329+54', 'DIAG_SGR_B2'])), np.asarray(data_file, dtype=np.float32))
+        with common.quiet():
+            fr = stg.Frame(waterfall=p0)
     else:
         ext = 'h5' if (c['start'] == 'loaded_h5' and T >= 3 and F >= 3) else 'fil'
         p0 = newpath(ext)
